@@ -209,16 +209,36 @@ func parseReachable(p *core.Prog, inScope func(*ssa.Function) bool) map[*ssa.Fun
 	return seen
 }
 
+// forwardedCall: ret returns exactly the results of one call, in order.
+func forwardedCall(ret *ssa.Return) *ssa.Call {
+	var call *ssa.Call
+	for i, v := range ret.Results {
+		ex, ok := v.(*ssa.Extract)
+		if !ok || ex.Index != i {
+			return nil
+		}
+		c, ok := ex.Tuple.(*ssa.Call)
+		if !ok || (call != nil && c != call) {
+			return nil
+		}
+		call = c
+	}
+	if call == nil || call.Call.Signature().Results().Len() != len(ret.Results) {
+		return nil
+	}
+	return call
+}
+
 // computeNilErrSummaries derives, with the zone analysis itself, facts that
 // hold whenever a helper of the scope returns a nil error: a lower bound on
 // the length of a returned slice, `n <= len(param)` and `n >= 0` for a
 // returned count. Two rounds, so that helpers may lean on other helpers.
 func computeNilErrSummaries(p *core.Prog, fns map[*ssa.Function]bool) int {
 	n := 0
-	for round := 0; round < 2; round++ {
+	for round := 0; round < 3; round++ {
 		for fn := range fns {
 			res := fn.Signature.Results()
-			if res.Len() < 2 || !isErrorType(res.At(res.Len()-1).Type()) || fn.Blocks == nil {
+			if res.Len() < 1 || !isErrorType(res.At(res.Len()-1).Type()) || fn.Blocks == nil {
 				continue
 			}
 			o := fn.Object()
@@ -227,14 +247,70 @@ func computeNilErrSummaries(p *core.Prog, fns map[*ssa.Function]bool) int {
 			}
 			key := core.ObjName(o)
 			var zr *core.ZoneResult
-			fact := &core.NilErrFact{MinLen: map[int]int64{}, LeLenArg: map[int]int{}, NonNeg: map[int]bool{}}
+			fact := &core.NilErrFact{MinLen: map[int]int64{}, LeLenArg: map[int]int{}, NonNeg: map[int]bool{}, IntUpper: map[int]int64{}, ArgMinLen: map[int]int64{}}
 			first := true
 			minLen := map[int]int64{}
 			leArg := map[int]map[int]bool{}
 			nonNeg := map[int]bool{}
+			upper := map[int]int64{}
+			noUpper := map[int]bool{}
+			argMin := map[int]int64{}
 			okAll := true
 			for _, ret := range core.Returns(fn) {
 				if !isNilConst(ret.Results[len(ret.Results)-1]) {
+					// `return helper(...)`: the results are those of one call, in order; what holds for the
+					// helper's nil-error returns holds for this return
+					if fc := forwardedCall(ret); fc != nil {
+						f := core.SummaryFor(fc)
+						if f == nil {
+							okAll = false
+							break
+						}
+						for k := range fn.Params {
+							argMin[k] = 0
+						}
+						for i := 0; i < len(ret.Results)-1; i++ {
+							v := ret.Results[i]
+							switch {
+							case isSliceOrString(v.Type()):
+								lb := f.MinLen[i]
+								if first || lb < minLen[i] {
+									minLen[i] = lb
+								}
+							case isIntegerValue(v):
+								if first {
+									nonNeg[i] = f.NonNeg[i]
+								} else {
+									nonNeg[i] = nonNeg[i] && f.NonNeg[i]
+								}
+								if hi, has := f.IntUpper[i]; has {
+									if cur, seen := upper[i]; !seen || hi > cur {
+										upper[i] = hi
+									}
+								} else {
+									noUpper[i] = true
+								}
+								cur := map[int]bool{}
+								if ai, has := f.LeLenArg[i]; has && ai < len(fc.Call.Args) {
+									for k, prm := range fn.Params {
+										if fc.Call.Args[ai] == ssa.Value(prm) {
+											cur[k] = true
+										}
+									}
+								}
+								if first {
+									leArg[i] = cur
+								} else {
+									for k := range leArg[i] {
+										if !cur[k] {
+											delete(leArg[i], k)
+										}
+									}
+								}
+							}
+						}
+						first = false
+					}
 					continue
 				}
 				if zr == nil {
@@ -246,6 +322,14 @@ func computeNilErrSummaries(p *core.Prog, fns map[*ssa.Function]bool) int {
 				}
 				if !zr.Reachable(ret) {
 					continue
+				}
+				for k, prm := range fn.Params {
+					if isSliceOrString(prm.Type()) {
+						lb := zr.LenAtLeast(ret, prm)
+						if cur, seen := argMin[k]; !seen || lb < cur {
+							argMin[k] = lb
+						}
+					}
 				}
 				for i := 0; i < len(ret.Results)-1; i++ {
 					v := ret.Results[i]
@@ -261,6 +345,13 @@ func computeNilErrSummaries(p *core.Prog, fns map[*ssa.Function]bool) int {
 							nonNeg[i] = nn
 						} else {
 							nonNeg[i] = nonNeg[i] && nn
+						}
+						if hi, okH := zr.UpperConst(ret, v); okH && hi < 1<<40 {
+							if cur, seen := upper[i]; !seen || hi > cur {
+								upper[i] = hi
+							}
+						} else {
+							noUpper[i] = true
 						}
 						cur := map[int]bool{}
 						for k, prm := range fn.Params {
@@ -303,6 +394,18 @@ func computeNilErrSummaries(p *core.Prog, fns map[*ssa.Function]bool) int {
 			for i, nn := range nonNeg {
 				if nn {
 					fact.NonNeg[i] = true
+					any = true
+				}
+			}
+			for i, hi := range upper {
+				if !noUpper[i] {
+					fact.IntUpper[i] = hi
+					any = true
+				}
+			}
+			for k, lb := range argMin {
+				if lb > 0 {
+					fact.ArgMinLen[k] = lb
 					any = true
 				}
 			}
